@@ -43,7 +43,7 @@ Next ==
 AllConsumed == TLCGet("stats").diameter = Len(Trace) + 1
 (* multicast players (driver TestMulticast; they share one proxy consumer; datagrams cannot be received in the sandbox):
      [e |-> "mcast-end", t, players_ok, consumers_while_playing, closed: <<BOOLEAN>>]    the publisher left: was each player's connection closed?
-     [e |-> "mcast-leave", t, players_ok, consumers_after_first_left, second_still_connected]   the first of two players left *)
+     [e |-> "mcast-leave", t, players_ok, consumers_after_first_left, second_still_connected, consumers_after_all_left]   the first of two players left, then the second *)
 McastNext ==
   /\ l < Len(Trace) /\ l' = l + 1 /\ pubs' = pubs
   /\ LET e == Trace[l'] IN
@@ -51,6 +51,8 @@ McastNext ==
             IF e.players_ok /\ \A i \in 1..Len(e.closed) : e.closed[i] THEN TRUE
             ELSE PrintT(<<"@BAD", ToJson([line |-> l', t |-> e.t, why |-> "C03:multicast-player-not-closed-when-the-stream-ends", ev |-> e])>>)
        [] e.e = "mcast-leave" ->
-            IF e.players_ok /\ e.consumers_after_first_left >= 1 /\ e.second_still_connected THEN TRUE
-            ELSE PrintT(<<"@BAD", ToJson([line |-> l', t |-> e.t, why |-> "C01:multicast-delivery-stops-for-the-others-when-the-first-player-leaves", ev |-> e])>>)
+            /\ IF e.players_ok /\ e.consumers_after_first_left >= 1 /\ e.second_still_connected THEN TRUE
+               ELSE PrintT(<<"@BAD", ToJson([line |-> l', t |-> e.t, why |-> "C01:multicast-delivery-stops-for-the-others-when-the-first-player-leaves", ev |-> e])>>)
+            /\ IF e.consumers_after_all_left = 0 THEN TRUE
+               ELSE PrintT(<<"@BAD", ToJson([line |-> l', t |-> e.t, why |-> "C12:teardown-does-not-release-the-multicast-membership (the proxy keeps consuming after the last player left)", ev |-> e])>>)
 ================================================================================
